@@ -71,8 +71,13 @@ Definition ast_parse_remit (m : module) : outcome module :=
   | _ => Ok m
   end.
 
-Definition ast_parse (root : path) (m : module) : outcome amodule :=
+(* ast_parse(source) with the default skip_docstring_remit=False *)
+Definition ast_parse_remitting (root : path) (m : module) : outcome amodule :=
   if supported m then (do m' <- ast_parse_remit m; Ok (annotate_at root m')) else Err Unmodelled.
+
+(* ast_parse(source, skip_docstring_remit=True): what sync_properties calls (as of /repo 3e792de) *)
+Definition ast_parse (root : path) (m : module) : outcome amodule :=
+  if supported m then Ok (annotate_at root m) else Err Unmodelled.
 
 (* ------------------------------------------------------------------ str.format with one keyword *)
 Definition lbrace := ch 123.
@@ -416,7 +421,7 @@ Definition enc_event (e : event) : sexp :=
 Definition run_syncprops (fn : sexp) (args : list sexp) : option sexp :=
   if is_sym "ast_parse" fn then
     match args with
-    | [m] => let? m := dec_module m in Some (enc_outcome (enc_amodule true) (ast_parse [] m))
+    | [m] => let? m := dec_module m in Some (enc_outcome (enc_amodule true) (ast_parse_remitting [] m))
     | _ => None
     end
   else if is_sym "format_wrap" fn then
